@@ -313,7 +313,7 @@ def stale_reference_rule(prog, res):
                         break
                 if bad:
                     e, u = bad
-                    res.viol('dangling', 'reference `%s` to an element of %s' % (d['name'], '.'.join(path[:path.index('[]')])), f.loc(u['id']),
+                    res.viol('dangling', 'reference `%s` to an element of %s' % (d['name'], '.'.join(e[2])), f.loc(u['id']),
                              'the reference is bound to an element of a container at %s, the container may be reallocated by %s at %s, and the reference is used afterwards' %
                              (f.loc(n['id']), FX.fmt(e), f.loc(e[0])), function=f.sig, expr='stale-ref:' + d['name'])
                 else:
